@@ -29,6 +29,16 @@ class VivoRecorder:
         ev.setdefault("exc", "none")
         self.ev.append(ev)
 
+    def observe(self, name):
+        """an observation point between order calls (strategy hooks, trade boundaries): what `store.orders` reports there"""
+        if name in ("before", "after", "update_position"):
+            return                          # every candle: too many; the hooks around order calls and trade boundaries stay
+        try:
+            s = self.snap()
+        except Exception:
+            return
+        self.emit({"k": "obs", "at": name}, s, s)
+
     def _wrap(self, obj, name, make):
         orig = getattr(obj, name)
         setattr(obj, name, make(orig))
@@ -121,6 +131,50 @@ class VivoRecorder:
         return self
 
 
+def make_strategy(policy, rec):
+    """policy strategy of harness.session plus the situations in which jesse itself calls execute()/cancel() on orders
+    that are already final:
+      * two MARKET exits pending together (stop-loss and take-profit both at the current price): the first fill closes
+        the position, Strategy._execute_cancel cancels the second, execute_pending_market_orders then executes the
+        CANCELED order;
+      * a MARKET exit submitted inside on_open/on_reduced_position while a candle is being matched: the matching
+        loop re-selects and executes it at once, the pending-queue flush executes the EXECUTED order again.
+    Every hook is an observation point for the order registries (after reset_trade_orders, at trade boundaries)."""
+    import random
+    from .. import session
+    base = session.make_policy_strategy(policy, observe=lambda st, name, order: rec.observe(name))
+    pd, ph = policy.get("p_double_market_exit", 0.0), policy.get("p_market_exit_in_hook", 0.0)
+
+    class VivoStrategy(base):
+        def _rr(self, hook):
+            return random.Random(session._h(policy.get("seed", 0), "vivo", hook, self.index, self.symbol))
+
+        def update_position(self):
+            if abs(self.position.qty) >= 2 and self._rr("upd").random() < pd:
+                q = abs(self.position.qty)
+                # (jesse refuses identical stop-loss and take-profit: the take-profit is split in two rows)
+                self.stop_loss = q, self.price
+                self.take_profit = [(1, self.price), (q - 1, self.price)]
+                rec.observe("double_market_exit")
+                return
+            super().update_position()
+
+        def on_open_position(self, order):
+            super().on_open_position(order)
+            if self._rr("open").random() < ph:
+                self.take_profit = abs(self.position.qty), self.price
+
+        def on_reduced_position(self, order):
+            super().on_reduced_position(order)
+            if self.position.qty != 0 and self._rr("red").random() < ph:
+                self.take_profit = abs(self.position.qty), self.price
+
+        def on_cancel(self):
+            rec.observe("on_cancel")
+
+    return VivoStrategy
+
+
 def run_one(arg):
     """(id, kind, policy, config-args, candle-args, fast) -> trace; module level for run_isolated"""
     tid, kind, policy, cfgargs, cargs, fast = arg
@@ -137,7 +191,7 @@ def run_one(arg):
                                                     floor=cargs["floor"])
     rec = VivoRecorder(kind, config["exchange"], syms, fee[1]).install()
     try:
-        out = session.run_backtest(policy, config, candles, fast=fast)
+        out = session.run_backtest(policy, config, candles, fast=fast, strategy_cls=make_strategy(policy, rec))
     finally:
         rec.uninstall()
     hdr = {"syms": syms, "FeeNum": fee[0], "FeeDen": fee[1], "Start": cfgargs["balance"], "CancelOnClose": False,
@@ -150,7 +204,7 @@ def run_one(arg):
             "args": [kind, policy, cfgargs, cargs, fast]}
 
 
-def specs(kind, n, seed, first_id=1):
+def specs(kind, n, seed, first_id=1, minutes=(120, 180)):
     import random
     rng = random.Random(seed * 104729 + (1 if kind == "futures" else 2))
     out = []
@@ -159,12 +213,16 @@ def specs(kind, n, seed, first_id=1):
         policy = dict(seed=rng.randrange(10 ** 6), tick=1.0, qtys=(1, 2), entry_every=rng.choice([5, 7, 9]),
                       allow_short=(kind == "futures"), spot=(kind == "spot"),
                       exits_in=rng.choice(["go", "on_open", "mixed"]) if kind == "futures" else "on_open",
-                      p_cancel=rng.choice([0.1, 0.3, 0.6]), p_edit=0.2, p_liquidate=0.05,
+                      p_cancel=rng.choice([0.1, 0.3, 0.6]), p_edit=0.2,
+                      # spot: liquidate() at a loss keeps the resting take-profit LIMIT sells, so its MARKET sell is
+                      # rejected by the per-kind rule of C04 and the run ends there - kept rare
+                      p_liquidate=0.05 if kind == "futures" else (0.05 if i % 6 == 0 else 0.0),
                       p_edit_on_reduced=0.0,       # that edit derives a price from the average entry (off the integer lattice)
+                      p_double_market_exit=rng.choice([0.0, 0.15, 0.3]), p_market_exit_in_hook=rng.choice([0.0, 0.3, 0.6]),
                       oversize_sl=(i % 4 == 0 and kind == "futures"), max_entry_rows=2, max_exit_rows=2)
         fee = rng.choice([(0, 1), (1, 16), (1, 64)])
         cfgargs = {"balance": rng.choice([400, 1000]), "fee": fee, "lev": rng.choice([1, 2, 4]) if kind == "futures" else 1}
-        cargs = {"syms": ["A", "B"][:nsym], "n": rng.choice([120, 180]), "seed": rng.randrange(10 ** 6),
+        cargs = {"syms": ["A", "B"][:nsym], "n": rng.choice(list(minutes)), "seed": rng.randrange(10 ** 6),
                  "start": rng.choice([24, 30, 40]), "floor": 8}
         out.append((first_id + i, kind, policy, cfgargs, cargs, bool(i % 2)))
     return out
